@@ -29,9 +29,9 @@ func main() {
 
 	if *prop != "" {
 		type inf struct {
-			Key, ID, Name, Level, Rule string
-			Cases, Bound               int
-			Assumptions                []string
+			Key, ID, Name, Level, Rule, CrashSig string
+			Cases, Bound                         int
+			Assumptions                          []string
 		}
 		var out []inf
 		for _, k := range scen.ForProperty(*prop) {
@@ -40,7 +40,7 @@ func main() {
 			if s.Bound != nil {
 				b = s.Bound(*tier)
 			}
-			out = append(out, inf{k, s.ID, s.Name, s.Level, s.Rule, s.Cases(*tier), b, s.Assumptions})
+			out = append(out, inf{k, s.ID, s.Name, s.Level, s.Rule, s.CrashSig, s.Cases(*tier), b, s.Assumptions})
 		}
 		json.NewEncoder(os.Stdout).Encode(out)
 		return
